@@ -922,4 +922,52 @@ Proof.
   split; [exact A|]. split; [exact C|]. split; [exact D|]. split; [exact E|]. split; [exact F|exact G].
 Qed.
 
+(** * resets and local cancellation *)
+Lemma readLoop_cancel : forall fuel s n acc s' d c r bug,
+  readLoop fuel s n acc = (s', d, ECancel c r, bug) ->
+  cancelledLocally s' = true \/ remoteEffective s' = true.
+Proof using.
+  induction fuel as [|fuel IH]; intros s n acc s' d c r bug H; simpl in H; [inversion H|].
+  destruct (n <=? len acc).
+  { destruct (remoteEffective s) eqn:E; inversion H; subst. right. exact E. }
+  destruct (if (match cur s with [] => true | _ => false end) || (len (cur s) <=? rpif s) then dequeue s else (s, false)) as [s1 b1] eqn:Ed.
+  destruct b1; [inversion H|].
+  destruct ((match cur s1 with [] => true | _ => false end) && (0 <? len acc)).
+  { destruct (shutdown s1); inversion H. }
+  destruct (shutdown s1); [inversion H|].
+  destruct (cancelledLocally s1 || remoteEffective s1) eqn:Ec.
+  { inversion H; subst. apply orb_prop in Ec. exact Ec. }
+  destruct (negb _); [inversion H|].
+  match type of H with (if ?c then _ else _) = _ => destruct c end; [inversion H|].
+  eapply IH; eauto.
+Qed.
+
+(** the reset error (or the local cancellation error) is only returned when the stream was
+    cancelled locally, or it was reset and everything below the reliable size has been read *)
+Theorem recv_cancel_error s n s' d c r bug : Read s n = (s', d, ECancel c r, bug) ->
+  cancelledLocally s' = true \/ (cancelledRemotely s' = true /\ reliableSize s' <= rpos s').
+Proof using.
+  unfold Read. destruct (readImpl s n) as [[[s1 d1] e1] b1] eqn:ER. intros H. inversion H; subst.
+  destruct (isNewlyCompleted_fields s1) as (_&B&_&_&_&_&_&_&_&_&K&L&M&_). rewrite K, L, M, B.
+  assert (Hc : cancelledLocally s1 = true \/ remoteEffective s1 = true).
+  { unfold readImpl in ER.
+    destruct (curIsLast s && _); [inversion ER|].
+    destruct (cancelledLocally s || remoteEffective s) eqn:Ec.
+    { inversion ER; subst. apply orb_prop in Ec. exact Ec. }
+    destruct (shutdown s); [inversion ER|].
+    eapply readLoop_cancel; eauto. }
+  destruct Hc as [Hc|Hc]; [left; auto|right].
+  unfold remoteEffective in Hc. apply andb_prop in Hc as [H1 H2]. apply Z.leb_le in H2. auto.
+Qed.
+
+(** after CancelRead no Read returns data any more *)
+Theorem recv_no_data_after_cancel s n s' d e bug : cancelledLocally s = true -> Read s n = (s', d, e, bug) ->
+  d = [] /\ cancelledLocally s' = true.
+Proof using.
+  intros Hc. unfold Read. destruct (readImpl s n) as [[[s1 d1] e1] b1] eqn:ER. intros H. inversion H; subst.
+  destruct (isNewlyCompleted_fields s1) as (_&_&_&_&_&_&_&_&_&_&K&_). rewrite K.
+  unfold readImpl in ER. rewrite Hc in ER. simpl in ER.
+  destruct (curIsLast s && _); inversion ER; subst; auto.
+Qed.
+
 End WithS.
